@@ -193,3 +193,6 @@ def replay(witness):
     from props import C10 as base
     inp = witness['input']
     return not base.same_program(base.run_parse(list(inp['unbroken'])), base.run_parse(list(inp['broken'])))
+
+
+LEVEL_TEXT_EXT = ('C10Break: a line broken with a trailing backslash at ANY blank run classifies identically, for every statement kind, with no hypothesis about the statement pattern (continuation_break_statement); counterexamples where a blank is not allowed.')
